@@ -156,6 +156,7 @@ func genLifecycle(rc *core.RunCtx, env *Env, p lcParams) *lcScenario {
 						sc.crashN[root]++
 					} else if budgetLeft[root] > 0 || root == exceedTarget {
 						m.Op = cPanic
+						m.Deep = g.Bool(0.1)
 						budgetLeft[root]--
 						sc.crashN[root]++
 					}
@@ -904,7 +905,7 @@ func init() {
 		Run: runLifecycle(lcParams{focus: "C01"}),
 		Doc: base + "stop-free and crash-free; sends race Spawn; oracle: each send is delivered exactly once with its sender or dead-lettered (before registration), per-sender order"})
 	core.Register(&core.Profile{Property: "C01", Name: "engine-restarts", Weight: 1, Cfg: cfgEngine,
-		Run: runLifecycle(lcParams{focus: "C01", crashes: true}),
+		Run: runLifecycle(lcParams{focus: "C01", crashes: true, lifeCrashes: true}),
 		Doc: base + "stop-free, with crashes within the restart budget on some messages (backlog larger than the batch, senders continuing through the restart): the messages the actor does not crash on are still delivered exactly once, with their sender, in per-sender order",
 		Faults: []string{"actor-crash-in-Receive"}})
 	core.Register(&core.Profile{Property: "C02", Name: "engine", Weight: 2, Cfg: cfgEngine,
